@@ -98,7 +98,7 @@ def case_st(draw, with_fault=True):
     if draw(st.integers(0, 3)) == 0:
         spec["nodes"].append({"p": ROOT + "/" + draw(st.sampled_from(["loop", "again"])), "t": "link", "to": "SELF", "abs": False})
     cfg = {"tokens": draw(st.sampled_from(["none", "none", "one", "several", "blank", "blanks"])),
-           "max_size": draw(st.sampled_from([64, None])),
+           "max_size": draw(st.sampled_from([64, 64, None, None, 0, 1])),
            "types": draw(st.sampled_from([None, None, ["text/gemini", "text/plain"]])),
            "delete": draw(st.sampled_from([True, True, False])),
            "via": draw(st.sampled_from(["object", "config"]))}
